@@ -1224,6 +1224,8 @@ Returns:
         # copy them together so the copy counts (and logs) its own evaluations
         bound = ('_cost', '_fcalls', '_evalmon')
         bound = dill.copy(dict((k,v) for (k,v) in self.__dict__.items() if k in bound))
+        for k in bound: # (other references to these now find the copies)
+            memo.setdefault(id(self.__dict__[k]), bound[k])
         for k, v in self.__dict__.items():
             if k in bound:
                 setattr(result, k, bound[k])
